@@ -79,6 +79,11 @@ structure UShape (ts : List Ty) : Prop where
   nodup : (ts.map hashStr).Nodup
   oneLit : (ts.filter Ty.isLit).length ≤ 1
 
+/-- a raw union has no hidden unions among its members: the worklist split is the category fold -/
+theorem raw_hidden {cfg : GenCfg} {ms : List Ty} (sh : UShape ms) (hm : ∀ t ∈ ms, rawD cfg t = true) :
+    ∀ t ∈ ms, hidden t = false :=
+  fun t ht => hidden_false_of (sh.flat t ht) (rawD_not_opt (hm t ht))
+
 theorem unionShape_iff (ts : List Ty) : unionShape ts = true ↔ UShape ts := by
   unfold unionShape
   simp only [Bool.and_eq_true, Bool.not_eq_true', List.isEmpty_eq_false_iff, List.all_eq_true,
